@@ -18,3 +18,5 @@ mod c25_sanity;
 mod layout;
 #[cfg(kani)]
 mod c32_descriptor;
+#[cfg(kani)]
+mod c35_sizeclass;
